@@ -174,6 +174,15 @@ def systematic_single_collector(tier):
         res += [base + ' ;; ' + sch for sch in _c04.preemption_schedules(2, [11, 5], 1 if tier == 'quick' else 2)]
     return res
 
+def systematic_push_race_then_reload(tier):
+    """two threads hit two DIFFERENT callsites for the first time together (both pushing onto the lock-free callsite list), then a
+    reload makes the collector want both: a callsite that fell off the list is never re-judged.  Every schedule of the two pushes
+    with at most 2 (thorough: 3) preemptions, the reload afterwards"""
+    N = 'n' * 30
+    both = ''.join('a' if i in (0, 13) else 'n' for i in range(30))
+    base = 'pre: newr 21 %sh- | @21 hit 0 | @21 hit 13 | rl 21 %sh-' % (N, both)
+    return [base + ' ;; ' + sch + '2' * 8 for sch in _c04.preemption_schedules(2, [8, 8], 2 if tier == 'quick' else 3)]
+
 def systematic_real_reload(tier):
     """a registered callsite, then two overlapping reloads on two threads: every schedule with at most 1 (thorough: 2) preemptions"""
     N = 'n' * 30; A = 'a' + 'n' * 29
@@ -203,7 +212,7 @@ def extra(tier, seed, rng, res, broken):
     deep = 'quick' if (tier == 'quick' and not broken) else 'thorough'
     cases = M.corpus_cases('C12', 'race') + [_c04.gen_scenario(rng, force_mut=True) for _ in range(n)] + \
             [gen_real_reload(rng) for _ in range(n // 2)] + [gen_single_collector(rng) for _ in range(n // 3)] + \
-            systematic_real_reload(deep) + systematic_racing_emission(deep) + systematic_single_collector(deep)
+            systematic_real_reload(deep) + systematic_racing_emission(deep) + systematic_single_collector(deep) + systematic_push_race_then_reload(deep)
     outs, err = M.run_per_process([M.bin_path('h_race')], cases, timeout=30)
     if err:
         res.errors.append('race stream: %s' % err); return
@@ -223,6 +232,23 @@ def extra(tier, seed, rng, res, broken):
 _s = Stream('hist', 'h_reload', gen=gen, per_process=True, nontrivial=nontrivial, spec_mode='spec')
 _s.spec_match = _match
 _s.model_case = model_case
+
+def _model_match(case, model, impl):
+    """absent global layers are an accept-all layer without hint to the model: exact for every delivery, but the real
+    pick_level_hint may publish a HIGHER max level around an absent layer (it discards an OFF hint it takes for the absent
+    layer's placeholder); a max level above the model's hides nothing, so for stacks with absent layers `cur` may exceed the model's"""
+    if model == impl: return True
+    st = case.split(' ;; ')[0].split()
+    if not any(t in ('GN',) or re.match(r'RG\d+:N$', t) for t in st) and ' N' not in case.split(' ;; ')[1] if ' ;; ' in case else True:
+        return False
+    a = model.split(); b = impl.split()
+    if len(a) != len(b): return False
+    for x, y in zip(a, b):
+        if x == y: continue
+        if x.startswith('c:') and y.startswith('c:') and x[2:].isdigit() and y[2:].isdigit() and int(y[2:]) >= int(x[2:]): continue
+        return False
+    return True
+_s.model_match = _model_match
 
 PROPERTY = {
     'manifest': {
